@@ -1,0 +1,16 @@
+//go:build verif
+// +build verif
+
+package cmd
+
+import (
+	"github.com/bbva/qed/gossip"
+	"github.com/bbva/qed/log"
+)
+
+// Constructors of the agents' task factories for the runtime monitors in /verif
+// (build tag "verif" only).
+
+func VerifMembershipFactory(l log.Logger) gossip.TaskFactory  { return membershipFactory{l} }
+func VerifIncrementalFactory(l log.Logger) gossip.TaskFactory { return incrementalFactory{l} }
+func VerifPublisherFactory(l log.Logger) gossip.TaskFactory   { return publisherFactory{l} }
